@@ -208,7 +208,7 @@ theorem elab_debug_eq : ∀ (e : SExpr), elabE true Γ e = elabE false Γ e
       obtain ⟨e1, τ1⟩ := p
       have ih := elab_sound_any false e e1 τ1 h1
       simp only
-      cases hn : elabUn o e1 τ1 with
+      cases hn : elabUn Γ o e1 τ1 with
       | error m => rfl
       | ok q => obtain ⟨n, τn⟩ := q; exact selfCheck_eq (elabUn_type ih hn)
   | .bin o a b => by
@@ -233,7 +233,7 @@ theorem elab_debug_eq : ∀ (e : SExpr), elabE true Γ e = elabE false Γ e
           | ok r => obtain ⟨n, τn⟩ := r; exact selfCheck_eq (elabArith_type hcls iha ihb hn)
         | assign =>
           simp only
-          cases hn : elabAssign o a1 τa b1 τb with
+          cases hn : elabAssign Γ o a1 τa b1 τb with
           | error m => rfl
           | ok r => obtain ⟨n, τn⟩ := r; exact selfCheck_eq (elabAssign_type iha ihb hn)
         | sequence => exact selfCheck_eq (by simp [typeOf, typeOf_of_hasType _ _ ihb])
